@@ -75,15 +75,21 @@ func (q *qpsLimiter) stopTicker() {
 }
 
 func (q *qpsLimiter) updateToken() {
-	var v int32
-	v = atomic.LoadInt32(&q.tokens)
-	if v < 0 {
-		v = q.once
-	} else if v+q.once > q.limit {
-		v = q.limit
-	} else {
-		v = v + q.once
+	for {
+		old := atomic.LoadInt32(&q.tokens)
+		v := old
+		if v < 0 {
+			v = q.once
+		} else if v+q.once > q.limit {
+			v = q.limit
+		} else {
+			v = v + q.once
+		}
+		verifGate("qps.update.loaded")
+		// Tokens taken between the load and the store must not be handed out again:
+		// install the refilled value only if no take intervened, else recompute.
+		if atomic.CompareAndSwapInt32(&q.tokens, old, v) {
+			return
+		}
 	}
-	verifGate("qps.update.loaded")
-	atomic.StoreInt32(&q.tokens, v)
 }
